@@ -665,8 +665,8 @@ def run(ctx):
         return replay(ctx, drv)
     rng = ctx.rng
     q = ctx.quick
-    N = dict(merge=250 if q else 2000, node=250 if q else 2000, poly=200 if q else 1600, shared=150 if q else 1200,
-             lr=500 if q else 4000)
+    N = dict(merge=250 if q else 1500, node=250 if q else 1500, poly=200 if q else 1200, shared=150 if q else 900,
+             lr=500 if q else 3000)
     cases = []
     corpus = os.path.join(ROOT, 'gen/corpus/C19.jsonl')
     if os.path.exists(corpus):
@@ -932,7 +932,14 @@ def judge_all(ctx, drv, cases, shrink=False):
             m = None
         if m is not None:
             ml.append(m); mi.append(i)
-    mouts = par_run_lines(ctx, [drv], ml, 1800 if not ctx.quick else 400)
+    mouts = par_run_lines(ctx, [drv], ml, 600 if not ctx.quick else 300, chunk=150)
+    unfinished = [j for j, o_ in enumerate(mouts) if o_.startswith(('CRASH', 'TIMEOUT')) or o_ in ('MISSING', '')]
+    for j in unfinished[:200]:            # once more, alone (a loaded machine can starve a whole batch)
+        mouts[j] = ctx.run_lines([drv], [ml[j]], timeout=300)[0]
+    unfinished = [j for j, o_ in enumerate(mouts) if o_.startswith(('CRASH', 'TIMEOUT')) or o_ in ('MISSING', '')]
+    ctx.notes['checker_requests_unfinished'] = len(unfinished)
+    if len(unfinished) > max(3, len(ml) // 200):
+        ctx.broken.append(dict(kind='checker', name='drv_C19 unfinished', detail='%d of %d checker requests did not finish, e.g. %s' % (len(unfinished), len(ml), ml[unfinished[0]][:800])))
     ctx.log('checker / model: %d requests' % len(ml))
     mres = {i: (l, o) for i, l, o in zip(mi, ml, mouts)}
     nviol = 0
@@ -996,7 +1003,9 @@ def judge_case(ctx, c, line, o, po, mres, allres, st):
         if mres is None:
             st(k + ':unjudged'); ctx.count(line, False); return bad
         ml, mo = mres
-        if mo.startswith(('CRASH', 'TIMEOUT', 'PARSE', 'ERROR', '?')):
+        if mo.startswith(('CRASH', 'TIMEOUT')) or mo in ('MISSING', ''):
+            st(k + ':checker-unfinished'); return bad      # not judged; the share of such requests is limited in judge_all
+        if mo.startswith(('PARSE', 'ERROR', '?')):
             ctx.broken.append(dict(kind='checker', name='drv_C19 ' + k, detail='%s\n%s' % (ml[:1500], mo[:500])))
             return bad
         bits = mo.split()
@@ -1171,7 +1180,9 @@ def judge_lr(ctx, c, line, o, po, mres, allres, st):
     if mres is None:
         ctx.count(line, False); return bad
     ml, mo = mres
-    if mo.startswith(('CRASH', 'TIMEOUT', 'PARSE', 'ERROR', '?')):
+    if mo.startswith(('CRASH', 'TIMEOUT')) or mo in ('MISSING', ''):
+        st('lr:checker-unfinished'); return bad
+    if mo.startswith(('PARSE', 'ERROR', '?')):
         ctx.broken.append(dict(kind='checker', name='drv_C19 lr', detail='%s\n%s' % (ml[:1500], mo[:500])))
         return bad
     KS = scale_of(all_vals([comps]))
